@@ -203,19 +203,28 @@ Proof. exact failed_send_register_example. Qed.
 Print Assumptions C04_failed_send_register_example.
 
 (* ---- lives ---- *)
-(* FALSE across lives ("own reply"): join() starts the ids of the new session at 1 again but keeps the request tables.
-   A record that survived the previous life (the user's onDisconnect does not call the default sweep) is matched by
-   the new session's RESULT 1, which belongs to no request of that session: the old call completes with it *)
-Theorem C04_own_reply_refuted_stale_record_next_life :
-  exists cfg ops, In (Completed 0 (ROk VNone)) (trace Tx cfg ops) /\ ~ In (Raised XProtocolError) (trace Tx cfg ops).
+(* "its own reply" across lives (Twisted): an object without a transport has empty request tables in every reachable
+   state, whatever the user's onLeave / onDisconnect do (onClose sweeps, a0cad4f0); so every life starts with empty
+   tables, and a record that a router message is matched to was issued in the same life: a reply of the next session
+   never matches a request of a previous life *)
+Theorem C04_tables_empty_between_lives : forall cfg ops,
+  transport (final Tx cfg ops) = false -> pend (final Tx cfg ops) = [].
+Proof. exact tx_no_transport_no_pending. Qed.
+Print Assumptions C04_tables_empty_between_lives.
+
+(* regression example (before a0cad4f0 the RESULT 1 of the second session completed call #1 of the first life): the
+   call fails with TransportLost when the transport is lost, the foreign RESULT is a protocol violation *)
+Theorem C04_own_reply_next_life_example :
+  let cfg := {| u_connect := CnJoin; u_welcome := WlNone; u_challenge := ChRaise; u_join_raises := false;
+                u_leave_super := true; u_leave_raises := false; u_disc_super := false; u_disc_raises := false;
+                t_lenient := false |} in
+  let ops := [OOpen; ACall 1 [] [] None; OLost false; OOpen; RWelcome 2; RResult 1 false {| p_args := None; p_kw := None |}] in
+  In (Completed 0 (RErr ETransportLost)) (trace Tx cfg ops) /\ In (Raised XProtocolError) (trace Tx cfg ops)
+  /\ ~ In (Completed 0 (ROk VNone)) (trace Tx cfg ops).
 Proof.
-  exists {| u_connect := CnJoin; u_welcome := WlNone; u_challenge := ChRaise; u_join_raises := false;
-            u_leave_super := true; u_leave_raises := false; u_disc_super := false; u_disc_raises := false;
-            t_lenient := false |},
-         [OOpen; ACall 1 [] [] None; OLost false; OOpen; RWelcome 2; RResult 1 false {| p_args := None; p_kw := None |}].
-  vm_compute. split; [auto 12|]. intro H; repeat (destruct H as [H|H]; try discriminate H); contradiction.
+  vm_compute. split; [auto 12|]. split; [auto 12|]. intro H; repeat (destruct H as [H|H]; try discriminate H); contradiction.
 Qed.
-Print Assumptions C04_own_reply_refuted_stale_record_next_life.
+Print Assumptions C04_own_reply_next_life_example.
 
 (* its freshness hypothesis holds in every reachable state *)
 Theorem C04_fresh_future_not_done : forall fl cfg ops, is_done (final fl cfg ops) (next_fut (final fl cfg ops)) = false.
